@@ -4,7 +4,9 @@
 // judged against (1) a value oracle computed from the observed contents of
 // the arguments and (2) a frame rule driven by a cons-cell sharing model of
 // the same history (which variables may, by the language rules, share a cons
-// cell with the destructively processed list).
+// cell with the destructively processed list). Elements are fixnums or
+// one-level sub-lists; a sub-list object reachable from several lists must
+// stay shared: a write into it is visible through every list that holds it.
 package c06
 
 import (
@@ -26,21 +28,23 @@ const nv = 4
 var names = [nv]string{"la", "lb", "lc", "ld"}
 
 // Op is one operation of a history. T is the variable the result is bound
-// to (for place operations - push, pop, setf-* - T is the place and A is
-// ignored), A and B are the list arguments, K and J are selectors that are
-// resolved against the observed length of the argument when the step runs
-// (so that every generated operation is applicable), V a variant.
+// to (for place operations - push, pop, setf-*, addf - T is the place and A
+// is ignored), A, B and C are the list arguments, K and J are selectors that
+// are resolved against the observed contents of the argument when the step
+// runs (so that every generated operation is applicable).
 type Op struct {
 	Op string `json:"op"`
 	T  int    `json:"t"`
 	A  int    `json:"a"`
 	B  int    `json:"b,omitempty"`
+	C  int    `json:"c,omitempty"`
 	K  int    `json:"k,omitempty"`
 	J  int    `json:"j,omitempty"`
 }
 
 // Case is a history: Pre builds the pool (constructors, growth by add/push,
-// shortening, aliases), Ops is the history proper (length <= 6).
+// shortening, lists built by remove/delete/mapcar/append, aliases), Ops is
+// the history proper (length <= 6).
 type Case struct {
 	Pre  []Op   `json:"pre"`
 	Ops  []Op   `json:"ops"`
@@ -56,31 +60,35 @@ type Case struct {
 const (
 	shFresh = iota // all cons cells of the result are new
 	shA            // result may share cells with A (tail of A, A itself, A extended in front)
-	shB            // result may share cells with B (append: last argument)
-	shAB           // result links A's cells to B's (nconc, rplacd): the classes merge
+	shB            // result may share cells with B (append, revappend: last argument)
+	shC            // result may share cells with C (three-argument append)
+	shAB           // result links the arguments' cells (nconc, nreconc, rplacd): the classes merge
 )
 
 type kind struct {
 	name   string
 	place  bool // operates on the place T (A := T)
-	binary bool // has a second list argument B
-	dest   bool // documented destructive on A
+	nargs  int  // number of list arguments (1, 2 or 3)
+	dest   bool // documented destructive on A (nconc: every argument but the last)
 	ext    bool // extension: may only add elements behind the end of sharing lists
+	elem   bool // writes into a sub-list element of A
 	share  int
 	weight int
 }
 
-// The operations of the property's quantifier with their weights in the
-// random stream. No operation is avoided: the subseq, list* and rplacd
-// findings are repaired in /repo, the open add finding is state dependent.
+// The operations with their weights in the random stream. Nothing is
+// avoided except what plan() reports as "avoided:".
 var kinds = []kind{
 	{name: "list", share: shFresh, weight: 2},
 	{name: "quote", share: shFresh, weight: 1},
 	{name: "alias", share: shA, weight: 4},
 	{name: "cons", share: shA, weight: 4},
-	{name: "list*", share: shA, weight: 3},
-	{name: "append", binary: true, share: shB, weight: 5},
+	{name: "list*", share: shA, weight: 2},
+	{name: "list*1", share: shA, weight: 1},
+	{name: "append", nargs: 2, share: shB, weight: 5},
 	{name: "append1", share: shA, weight: 1},
+	{name: "append3", nargs: 3, share: shC, weight: 3},
+	{name: "revappend", nargs: 2, share: shB, weight: 2},
 	{name: "cdr", share: shA, weight: 4},
 	{name: "rest", share: shA, weight: 2},
 	{name: "nthcdr", share: shA, weight: 4},
@@ -91,6 +99,7 @@ var kinds = []kind{
 	{name: "subseq", share: shFresh, weight: 4},
 	{name: "subseq-noend", share: shFresh, weight: 2},
 	{name: "copy-list", share: shFresh, weight: 4},
+	{name: "copy-seq", share: shFresh, weight: 1},
 	{name: "reverse", share: shFresh, weight: 4},
 	{name: "remove", share: shFresh, weight: 3},
 	{name: "remove-count", share: shFresh, weight: 1},
@@ -98,37 +107,49 @@ var kinds = []kind{
 	{name: "remove-dup", share: shFresh, weight: 2},
 	{name: "member", share: shA, weight: 3},
 	{name: "mapcar", share: shFresh, weight: 3},
-	{name: "mapcar2", binary: true, share: shFresh, weight: 1},
+	{name: "mapcar2", nargs: 2, share: shFresh, weight: 1},
 	{name: "push", place: true, share: shA, weight: 5},
+	{name: "pushnew", place: true, share: shA, weight: 1},
 	{name: "pop", place: true, share: shA, weight: 4},
 	{name: "setf-car", place: true, dest: true, share: shA, weight: 3},
 	{name: "setf-first", place: true, dest: true, share: shA, weight: 1},
 	{name: "setf-nth", place: true, dest: true, share: shA, weight: 3},
 	{name: "setf-elt", place: true, dest: true, share: shA, weight: 3},
+	{name: "setf-caar", place: true, elem: true, share: shA, weight: 3},
+	{name: "setf-sub-nth", place: true, elem: true, share: shA, weight: 2},
+	{name: "rplaca-sub", place: true, elem: true, share: shA, weight: 2},
 	{name: "rplaca", dest: true, share: shA, weight: 3},
-	{name: "rplacd", binary: true, dest: true, share: shAB, weight: 3},
-	{name: "nconc", binary: true, dest: true, ext: true, share: shAB, weight: 6},
+	{name: "rplacd", nargs: 2, dest: true, share: shAB, weight: 3},
+	{name: "nconc", nargs: 2, dest: true, ext: true, share: shAB, weight: 5},
+	{name: "nconc3", nargs: 3, dest: true, ext: true, share: shAB, weight: 3},
+	{name: "nreconc", nargs: 2, dest: true, share: shAB, weight: 2},
 	{name: "add", dest: true, ext: true, share: shA, weight: 7},
 	{name: "add2", dest: true, ext: true, share: shA, weight: 2},
+	{name: "addf", place: true, dest: true, ext: true, share: shA, weight: 2},
 	{name: "nreverse", dest: true, share: shA, weight: 4},
+	{name: "nbutlast", dest: true, share: shA, weight: 1},
 	{name: "sort<", dest: true, share: shA, weight: 3},
 	{name: "sort>", dest: true, share: shA, weight: 1},
 	{name: "sort-default", dest: true, share: shA, weight: 2},
+	{name: "sort-key", dest: true, share: shA, weight: 2},
+	{name: "stable-sort", dest: true, share: shA, weight: 1},
 	{name: "delete", dest: true, share: shA, weight: 3},
 	{name: "delete-if", dest: true, share: shA, weight: 2},
 	{name: "delete-dup", dest: true, share: shA, weight: 1},
 }
 
 var (
-	kindOf   = map[string]*kind{}
-	totalW   int
-	pairOps  []string // operations enumerated by the exhaustive blocks
-	pairVarK = []int{1, 5}
+	kindOf  = map[string]*kind{}
+	totalW  int
+	pairOps []string // operations enumerated by the exhaustive blocks
 )
 
 func init() {
 	for i := range kinds {
 		k := &kinds[i]
+		if k.nargs == 0 {
+			k.nargs = 1
+		}
 		kindOf[k.name] = k
 		totalW += k.weight
 		if k.name != "list" && k.name != "quote" {
@@ -137,37 +158,61 @@ func init() {
 	}
 }
 
+// Pools of the exhaustive blocks (see basePre) and the (pool, selector)
+// combinations of the pair block: the two plain pools get both selector
+// values, the others one.
 const (
+	poolKinds      = 5
 	pairPatterns   = 6
 	triplePatterns = 2
-	growKinds      = 2
+	quickRandom    = 20000
+	thoroughRandom = 1600000
 )
 
-func pairBlock() int { return len(pairOps) * len(pairOps) * pairPatterns * growKinds * len(pairVarK) }
-func tripleBlock() int {
-	return len(pairOps) * len(pairOps) * len(pairOps) * triplePatterns * growKinds
+var pairCombos = [][2]int{{0, 1}, {0, 5}, {1, 1}, {1, 5}, {2, 1}, {2, 5}, {3, 1}, {4, 1}}
+
+func pairBlock() int { return len(pairOps) * len(pairOps) * pairPatterns * len(pairCombos) }
+
+// tripleBlock: thorough = every ordered triple x 2 patterns x 2 pools (the
+// pool rotates through all five with the triple); quick = the third of the
+// triples with (p+2q+3s) divisible by 3, one pattern and pool each.
+func tripleAll() int { return len(pairOps) * len(pairOps) * len(pairOps) }
+func tripleBlock(tier string) int {
+	if tier == "thorough" {
+		return tripleAll() * triplePatterns * 2
+	}
+	return tripleAll()
 }
 
 func nCases(tier string) int {
 	if tier == "thorough" {
-		return pairBlock() + tripleBlock() + 2000000
+		return pairBlock() + tripleBlock(tier) + thoroughRandom
 	}
-	return pairBlock() + 120000
+	return pairBlock() + tripleBlock(tier) + quickRandom
 }
 
-// basePre builds the pool of the exhaustive blocks: la = five elements
-// (grow 0: one call of list; grow 1: grown one element at a time by add, so
-// that the backing array has spare capacity), lb = (cdr la) (a tail alias),
-// lc = a second three-element list, ld = nil.
-func basePre(grow int) []Op {
+// basePre builds the pool of the exhaustive blocks. la has five elements:
+// pool 0: one call of list (exact capacity); 1: grown one element at a time
+// by add (spare capacity); 2: list with two sub-list elements; 3: result of
+// remove on a six element list (built by Go append: spare capacity); 4:
+// result of append of a three and a two element list (spare capacity).
+// lb = (cdr la) (a tail alias), lc = a second three-element list, ld = nil.
+func basePre(pool int) []Op {
 	var pre []Op
-	if grow == 0 {
+	switch pool {
+	case 0:
 		pre = append(pre, Op{Op: "list", T: 0, K: 5})
-	} else {
+	case 1:
 		pre = append(pre, Op{Op: "list", T: 0, K: 0})
 		for i := 0; i < 5; i++ {
 			pre = append(pre, Op{Op: "add", T: 0, A: 0})
 		}
+	case 2:
+		pre = append(pre, Op{Op: "list", T: 0, K: 5, J: 1})
+	case 3:
+		pre = append(pre, Op{Op: "list", T: 0, K: 6}, Op{Op: "remove", T: 0, A: 0, K: 0})
+	default:
+		pre = append(pre, Op{Op: "list", T: 0, K: 3}, Op{Op: "list", T: 2, K: 2}, Op{Op: "append", T: 0, A: 0, B: 2})
 	}
 	pre = append(pre, Op{Op: "cdr", T: 1, A: 0})
 	pre = append(pre, Op{Op: "list", T: 2, K: 3})
@@ -175,56 +220,74 @@ func basePre(grow int) []Op {
 	return pre
 }
 
-func mk(name string, t, a, b, k int) Op {
+func mk(name string, t, a, b, c, k int) Op {
 	kd := kindOf[name]
 	if kd.place {
 		// the place is the argument
 		t = a
 	}
-	return Op{Op: name, T: t, A: a, B: b, K: k, J: 1}
+	return Op{Op: name, T: t, A: a, B: b, C: c, K: k, J: 1}
 }
+
+var routes = []string{"", "let", "lambda"}
 
 func gen(r *rand.Rand, i int, tier string) Case {
 	n := len(pairOps)
 	if i < pairBlock() {
-		k := pairVarK[i%len(pairVarK)]
-		i /= len(pairVarK)
-		grow := i % growKinds
-		i /= growKinds
+		combo := pairCombos[i%len(pairCombos)]
+		i /= len(pairCombos)
 		pat := i % pairPatterns
 		i /= pairPatterns
 		p, q := pairOps[i/n], pairOps[i%n]
+		k := combo[1]
 		var ops []Op
 		switch pat {
 		case 0: // the result of P is processed in place; la, lb, lc watch
-			ops = []Op{mk(p, 3, 0, 2, k), mk(q, 3, 3, 2, k)}
+			ops = []Op{mk(p, 3, 0, 2, 1, k), mk(q, 3, 3, 2, 0, k)}
 		case 1: // the source of P is processed afterwards; ld, lb watch
-			ops = []Op{mk(p, 3, 0, 2, k), mk(q, 0, 0, 2, k)}
+			ops = []Op{mk(p, 3, 0, 2, 1, k), mk(q, 0, 0, 2, 3, k)}
 		case 2: // result and source combined into a third list
-			ops = []Op{mk(p, 3, 0, 2, k), mk(q, 2, 3, 0, k)}
-		case 3: // same variable as both arguments, then the tail alias is processed
-			ops = []Op{mk(p, 0, 0, 0, k), mk(q, 3, 1, 2, k)}
+			ops = []Op{mk(p, 3, 0, 2, 2, k), mk(q, 2, 3, 0, 2, k)}
+		case 3: // same variable as every argument, then the tail alias is processed
+			ops = []Op{mk(p, 0, 0, 0, 0, k), mk(q, 3, 1, 2, 0, k)}
 		case 4: // the result replaces the source; the tail alias watches and is processed
-			ops = []Op{mk(p, 0, 0, 2, k), mk(q, 3, 1, 0, k)}
+			ops = []Op{mk(p, 0, 0, 2, 2, k), mk(q, 3, 1, 0, 2, k)}
 		default: // the tail alias is the argument; then the whole list is processed with the result
-			ops = []Op{mk(p, 3, 1, 2, k), mk(q, 2, 0, 3, k)}
+			ops = []Op{mk(p, 3, 1, 2, 2, k), mk(q, 2, 0, 3, 3, k)}
 		}
-		return Case{Pre: basePre(grow), Ops: ops, Route: []string{"", "let", "lambda"}[(i+pat)%3]}
+		return Case{Pre: basePre(combo[0]), Ops: ops, Route: routes[(i+pat)%3]}
 	}
 	i -= pairBlock()
-	if tier == "thorough" && i < tripleBlock() {
-		grow := i % growKinds
-		i /= growKinds
-		pat := i % triplePatterns
-		i /= triplePatterns
-		p, q, s := pairOps[i/(n*n)], pairOps[(i/n)%n], pairOps[i%n]
+	if i < tripleBlock(tier) {
+		var pat, pool int
+		if tier == "thorough" {
+			pool = i % 2
+			i /= 2
+			pat = i % triplePatterns
+			i /= triplePatterns
+		}
+		pi, qi, si := i/(n*n), (i/n)%n, i%n
+		if tier == "thorough" {
+			// pools 0/1 alternate with the index; every third triple uses 2, 3 or 4 instead
+			if (pi+qi+si)%3 == 0 {
+				pool = 2 + (pi+2*qi+si+pool)%3
+			}
+		} else {
+			if (pi+2*qi+3*si)%3 != 0 {
+				// not in the quick slice: a random history instead
+				return randomCase(r)
+			}
+			pat = (pi + qi + si) % triplePatterns
+			pool = (pi + 2*qi + si) % poolKinds
+		}
+		p, q, s := pairOps[pi], pairOps[qi], pairOps[si]
 		var ops []Op
 		if pat == 0 {
-			ops = []Op{mk(p, 3, 0, 2, 1), mk(q, 2, 3, 2, 2), mk(s, 3, 3, 2, 1)}
+			ops = []Op{mk(p, 3, 0, 2, 1, 1), mk(q, 2, 3, 2, 0, 2), mk(s, 3, 3, 2, 0, 1)}
 		} else {
-			ops = []Op{mk(p, 3, 0, 2, 1), mk(q, 0, 0, 3, 1), mk(s, 2, 1, 3, 2)}
+			ops = []Op{mk(p, 3, 0, 2, 1, 1), mk(q, 0, 0, 3, 1, 1), mk(s, 2, 1, 3, 0, 2)}
 		}
-		return Case{Pre: basePre(grow), Ops: ops, Route: []string{"", "let", "lambda"}[(i+pat)%3]}
+		return Case{Pre: basePre(pool), Ops: ops, Route: routes[(i+pat)%3]}
 	}
 	return randomCase(r)
 }
@@ -243,7 +306,7 @@ func pickKind(r *rand.Rand) *kind {
 func randomCase(r *rand.Rand) Case {
 	var c Case
 	for v := 0; v < nv; v++ {
-		if 0 < v && r.IntN(100) < 45 {
+		if 0 < v && r.IntN(100) < 40 {
 			// an alias of an earlier variable
 			src := r.IntN(v)
 			switch r.IntN(6) {
@@ -261,16 +324,20 @@ func randomCase(r *rand.Rand) Case {
 			continue
 		}
 		n := []int{0, 1, 2, 3, 3, 4, 4, 5, 5, 5}[r.IntN(10)]
+		nested := 0
+		if r.IntN(4) == 0 {
+			nested = 1
+		}
 		switch k := r.IntN(100); {
+		case k < 25:
+			c.Pre = append(c.Pre, Op{Op: "list", T: v, K: n, J: nested})
 		case k < 35:
-			c.Pre = append(c.Pre, Op{Op: "list", T: v, K: n})
-		case k < 50:
-			c.Pre = append(c.Pre, Op{Op: "quote", T: v, K: n})
-		case k < 85: // grown by add: spare capacity behind the end
+			c.Pre = append(c.Pre, Op{Op: "quote", T: v, K: n, J: nested})
+		case k < 60: // grown by add: spare capacity behind the end
 			c.Pre = append(c.Pre, Op{Op: "list", T: v, K: 0})
 			extra := r.IntN(3)
 			for j := 0; j < n+extra; j++ {
-				c.Pre = append(c.Pre, Op{Op: "add", T: v, A: v})
+				c.Pre = append(c.Pre, Op{Op: "add", T: v, A: v, J: 4 * r.IntN(2) * r.IntN(2)})
 			}
 			for j := 0; j < extra; j++ {
 				// shortened again
@@ -283,10 +350,34 @@ func randomCase(r *rand.Rand) Case {
 					c.Pre = append(c.Pre, Op{Op: "cdr", T: v, A: v})
 				}
 			}
-		default: // grown by push
+		case k < 70: // grown by push
 			c.Pre = append(c.Pre, Op{Op: "list", T: v, K: 0})
 			for j := 0; j < n; j++ {
 				c.Pre = append(c.Pre, Op{Op: "push", T: v, A: v})
+			}
+		default:
+			// results of functions that build their list with Go's append (or
+			// make): capacity beyond the length without any add
+			m := n + 1
+			if 6 < m {
+				m = 6
+			}
+			c.Pre = append(c.Pre, Op{Op: "list", T: v, K: m, J: nested})
+			switch r.IntN(7) {
+			case 0:
+				c.Pre = append(c.Pre, Op{Op: "remove", T: v, A: v, K: r.IntN(8)})
+			case 1:
+				c.Pre = append(c.Pre, Op{Op: "delete", T: v, A: v, K: r.IntN(8)})
+			case 2:
+				c.Pre = append(c.Pre, Op{Op: "remove-if", T: v, A: v, K: r.IntN(2)})
+			case 3:
+				c.Pre = append(c.Pre, Op{Op: "mapcar", T: v, A: v, K: r.IntN(2)})
+			case 4:
+				c.Pre = append(c.Pre, Op{Op: "append", T: v, A: v, B: r.IntN(v + 1)})
+			case 5:
+				c.Pre = append(c.Pre, Op{Op: "remove-dup", T: v, A: v})
+			default:
+				c.Pre = append(c.Pre, Op{Op: "revappend", T: v, A: v, B: r.IntN(v + 1)})
 			}
 		}
 	}
@@ -294,14 +385,17 @@ func randomCase(r *rand.Rand) Case {
 	for j := 0; j < nops; j++ {
 		kd := pickKind(r)
 		op := Op{Op: kd.name, T: r.IntN(nv), A: r.IntN(nv), K: r.IntN(8), J: r.IntN(8)}
-		if kd.binary {
+		if 2 <= kd.nargs {
 			op.B = r.IntN(nv)
+		}
+		if 3 <= kd.nargs {
+			op.C = r.IntN(nv)
 		}
 		if kd.place {
 			op.A = op.T
 		}
 		if kd.name == "list" || kd.name == "quote" {
-			op.K = r.IntN(6)
+			op.K = r.IntN(7)
 		}
 		c.Ops = append(c.Ops, op)
 	}
@@ -312,11 +406,134 @@ func randomCase(r *rand.Rand) Case {
 	return c
 }
 
+// ---------------------------------------------------------------- values
+
+// el is one element: a fixnum, or a non-empty one-level sub-list of fixnums.
+type el struct {
+	v   int
+	sub []int
+}
+
+type val []el
+
+func (e el) same(o el) bool {
+	if (e.sub == nil) != (o.sub == nil) {
+		return false
+	}
+	if e.sub == nil {
+		return e.v == o.v
+	}
+	if len(e.sub) != len(o.sub) {
+		return false
+	}
+	for i := range e.sub {
+		if e.sub[i] != o.sub[i] {
+			return false
+		}
+	}
+	return true
+}
+
+// key: the number a sub-list or fixnum sorts by in sort-key.
+func (e el) key() int {
+	if e.sub != nil {
+		return e.sub[0]
+	}
+	return e.v
+}
+
+func (e el) text() string {
+	if e.sub == nil {
+		return strconv.Itoa(e.v)
+	}
+	var b strings.Builder
+	b.WriteByte('(')
+	for i, x := range e.sub {
+		if 0 < i {
+			b.WriteByte(' ')
+		}
+		b.WriteString(strconv.Itoa(x))
+	}
+	b.WriteByte(')')
+	return b.String()
+}
+
+// form: an expression that evaluates to a new object of this value.
+func (e el) form() string {
+	if e.sub == nil {
+		return strconv.Itoa(e.v)
+	}
+	return "(list " + strings.Trim(e.text(), "()") + ")"
+}
+
+func render(v val) string {
+	if len(v) == 0 {
+		return "nil"
+	}
+	var b strings.Builder
+	b.WriteByte('(')
+	for i, e := range v {
+		if 0 < i {
+			b.WriteByte(' ')
+		}
+		b.WriteString(e.text())
+	}
+	b.WriteByte(')')
+	return b.String()
+}
+
+func (v val) allInts() bool {
+	for _, e := range v {
+		if e.sub != nil {
+			return false
+		}
+	}
+	return true
+}
+
+func (v val) subs() []int {
+	var at []int
+	for i, e := range v {
+		if e.sub != nil {
+			at = append(at, i)
+		}
+	}
+	return at
+}
+
+func cat(xs ...val) val {
+	out := val{}
+	for _, x := range xs {
+		out = append(out, x...)
+	}
+	return out
+}
+
+func rev(a val) val {
+	out := make(val, 0, len(a))
+	for i := len(a) - 1; 0 <= i; i-- {
+		out = append(out, a[i])
+	}
+	return out
+}
+
+func isPrefix(old, nw val) bool {
+	if len(nw) < len(old) {
+		return false
+	}
+	for i, e := range old {
+		if !nw[i].same(e) {
+			return false
+		}
+	}
+	return true
+}
+
 // ---------------------------------------------------------------- monitor
 
 type vstate struct {
 	shown string // harness rendering of the current value
-	el    []int  // elements when the value is a proper list of fixnums
+	el    val    // elements when the value is a proper list of fixnums and one-level sub-lists
 	ok    bool   // el is valid
 	class int    // cons-cell sharing class (0: never had a cons cell)
 	via   string // operation that allocated the cells of the value (by the language rules)
@@ -330,6 +547,7 @@ type world struct {
 	v     [nv]vstate
 	uf    []int // union-find parent over sharing classes; index 0 unused
 	step  int
+	next  int // next unused fixnum
 	prog  []string
 	dead  bool // an evaluation failed; the state is no longer meaningful
 	// hidden: operations whose result was seen to occupy the same backing
@@ -370,13 +588,17 @@ func sigName(op string) string {
 		return "subseq"
 	case "add2":
 		return "add"
-	case "append1":
+	case "append1", "append3":
 		return "append"
+	case "nconc3":
+		return "nconc"
+	case "list*1":
+		return "list*"
 	case "remove-count":
 		return "remove"
 	case "mapcar2":
 		return "mapcar"
-	case "sort<", "sort>", "sort-default":
+	case "sort<", "sort>", "sort-default", "sort-key":
 		return "sort"
 	case "remove-dup":
 		return "remove-duplicates"
@@ -386,15 +608,15 @@ func sigName(op string) string {
 	return op
 }
 
-func (w *world) blame(cd, ci int, fallback string) string {
+func (w *world) blame(cd, ci int) (string, bool) {
 	cd, ci = w.find(cd), w.find(ci)
 	for _, h := range w.hidden {
 		a, b := w.find(h.c1), w.find(h.c2)
 		if (a == cd && b == ci) || (a == ci && b == cd) {
-			return h.op
+			return h.op, true
 		}
 	}
-	return fallback
+	return "", false
 }
 
 func (w *world) find(c int) int {
@@ -422,23 +644,7 @@ func (w *world) union(a, b int) int {
 	return a
 }
 
-func render(el []int) string {
-	if len(el) == 0 {
-		return "nil"
-	}
-	var b strings.Builder
-	b.WriteByte('(')
-	for i, e := range el {
-		if 0 < i {
-			b.WriteByte(' ')
-		}
-		b.WriteString(strconv.Itoa(e))
-	}
-	b.WriteByte(')')
-	return b.String()
-}
-
-func (w *world) observe(i int) (shown string, el []int, ok bool) {
+func (w *world) observe(i int) (shown string, v val, ok bool) {
 	var obj slip.Object
 	if err := sl.Catch(func() { obj = w.scope.Get(slip.Symbol(names[i])) }); err != nil {
 		return "#<unreadable: " + err.String() + ">", nil, false
@@ -448,74 +654,81 @@ func (w *world) observe(i int) (shown string, el []int, ok bool) {
 	case nil:
 		return shown, nil, true
 	case slip.List:
-		el = make([]int, len(to))
+		v = make(val, len(to))
 		for k, e := range to {
-			f, isFix := e.(slip.Fixnum)
-			if !isFix {
+			switch te := e.(type) {
+			case slip.Fixnum:
+				v[k] = el{v: int(te)}
+			case slip.List:
+				if len(te) == 0 {
+					return shown, nil, false
+				}
+				sub := make([]int, len(te))
+				for j, se := range te {
+					f, isFix := se.(slip.Fixnum)
+					if !isFix {
+						return shown, nil, false
+					}
+					sub[j] = int(f)
+				}
+				v[k] = el{sub: sub}
+			default:
 				return shown, nil, false
 			}
-			el[k] = int(f)
 		}
-		return shown, el, true
+		return shown, v, true
 	}
 	return shown, nil, false
 }
 
-func cat(xs ...[]int) []int {
-	out := []int{}
-	for _, x := range xs {
-		out = append(out, x...)
-	}
-	return out
-}
-
-func nums(el []int) string {
-	var b strings.Builder
-	for _, e := range el {
-		b.WriteByte(' ')
-		b.WriteString(strconv.Itoa(e))
-	}
-	return b.String()
-}
-
-func isPrefix(old, nw []int) bool {
-	if len(nw) < len(old) {
-		return false
-	}
-	for i, e := range old {
-		if nw[i] != e {
-			return false
-		}
-	}
-	return true
+// planned is what plan() decides for one step.
+type planned struct {
+	src  string
+	want val    // reference value of the target variable
+	skip string // non-empty: the step is not run
+	// dargs: the arguments that are destructively processed (indexes of variables)
+	dargs []int
+	// from: the variables whose sharing class the result inherits (merged)
+	from []int
+	// element write: every variable is expected to hold all[i] afterwards
+	all *[nv]val
 }
 
 // plan resolves an operation against the observed contents and gives the
 // program text and the reference result for the target variable.
-func (w *world) plan(op Op, kd *kind) (src string, want []int, skip string) {
+func (w *world) plan(op Op, kd *kind) (p planned) {
 	T := names[op.T]
 	A := names[op.A]
 	B := names[op.B]
+	C := names[op.C]
 	a := w.v[op.A].el
 	b := w.v[op.B].el
+	c := w.v[op.C].el
 	n := len(a)
-	fresh := func(j int) int { return 100 + 10*w.step + j }
-	setq := func(form string) string { return "(setq " + T + " " + form + ")" }
-	if !w.v[op.A].ok || (kd.binary && !w.v[op.B].ok) {
-		return "", nil, "argument is not a proper list of fixnums"
-	}
-	sameCells := func() bool {
-		ca, cb := w.find(w.v[op.A].class), w.find(w.v[op.B].class)
-		return ca != 0 && ca == cb
-	}
-	item := func() int {
-		if k := op.K % (n + 1); k < n {
-			return a[k]
+	fresh := func() int { w.next++; return w.next }
+	// newEl: the element an operation introduces; sometimes a new sub-list
+	newEl := func() el {
+		if op.J%5 == 4 {
+			return el{sub: []int{fresh(), fresh()}}
 		}
-		return 7 // not an element: every element is >= 100
+		return el{v: fresh()}
 	}
-	without := func(pred func(i, e int) bool) []int {
-		out := []int{}
+	setq := func(form string, want val) planned {
+		return planned{src: "(setq " + T + " " + form + ")", want: want}
+	}
+	skip := func(why string) planned { return planned{skip: why} }
+	if !w.v[op.A].ok || (2 <= kd.nargs && !w.v[op.B].ok) || (3 <= kd.nargs && !w.v[op.C].ok) {
+		return skip("argument is not a list of fixnums and sub-lists")
+	}
+	classOf := func(i int) int { return w.find(w.v[i].class) }
+	item := func() int {
+		if k := op.K % (n + 1); k < n && a[k].sub == nil {
+			return a[k].v
+		}
+		return 7 // not an element: every number in a list is > 100
+	}
+	without := func(pred func(i int, e el) bool) val {
+		out := val{}
 		for i, e := range a {
 			if !pred(i, e) {
 				out = append(out, e)
@@ -523,191 +736,368 @@ func (w *world) plan(op Op, kd *kind) (src string, want []int, skip string) {
 		}
 		return out
 	}
-	laterDup := func(i, e int) bool {
+	laterDup := func(i int, e el) bool {
 		for _, l := range a[i+1:] {
-			if l == e {
+			if l.same(e) {
 				return true
 			}
 		}
 		return false
 	}
+	isItem := func(it int) func(int, el) bool {
+		return func(_ int, e el) bool { return e.sub == nil && e.v == it }
+	}
 	switch op.Op {
 	case "list", "quote":
-		k := op.K % 6
+		k := op.K % 7
+		var want val
+		var forms, texts []string
 		for j := 0; j < k; j++ {
-			want = append(want, fresh(j))
+			e := el{v: fresh()}
+			if op.J%4 == 1 && j%2 == 1 {
+				e = el{sub: []int{fresh(), fresh()}[:2-j/2%2]}
+			}
+			want = append(want, e)
+			forms = append(forms, e.form())
+			texts = append(texts, e.text())
 		}
 		if op.Op == "list" {
-			return setq("(list" + nums(want) + ")"), want, ""
+			return setq(strings.TrimSpace("(list "+strings.Join(forms, " "))+")", want)
 		}
-		return setq("'(" + strings.TrimSpace(nums(want)) + ")"), want, ""
+		return setq("'("+strings.Join(texts, " ")+")", want)
 	case "alias":
-		return setq(A), a, ""
+		return setq(A, a)
 	case "cons":
-		return setq(fmt.Sprintf("(cons %d %s)", fresh(0), A)), cat([]int{fresh(0)}, a), ""
+		e := newEl()
+		return setq(fmt.Sprintf("(cons %s %s)", e.form(), A), cat(val{e}, a))
 	case "list*":
-		return setq(fmt.Sprintf("(list* %d %d %s)", fresh(0), fresh(1), A)), cat([]int{fresh(0), fresh(1)}, a), ""
+		e1, e2 := el{v: fresh()}, newEl()
+		return setq(fmt.Sprintf("(list* %s %s %s)", e1.form(), e2.form(), A), cat(val{e1, e2}, a))
+	case "list*1":
+		e := el{v: fresh()}
+		return setq(fmt.Sprintf("(list* %s %s)", e.form(), A), cat(val{e}, a))
 	case "append":
-		return setq(fmt.Sprintf("(append %s %s)", A, B)), cat(a, b), ""
+		return setq(fmt.Sprintf("(append %s %s)", A, B), cat(a, b))
 	case "append1":
-		return setq(fmt.Sprintf("(append %s)", A)), a, ""
+		return setq(fmt.Sprintf("(append %s)", A), a)
+	case "append3":
+		return setq(fmt.Sprintf("(append %s %s %s)", A, B, C), cat(a, b, c))
+	case "revappend":
+		if n == 0 {
+			return skip("avoided:revappend-of-empty-list")
+		}
+		if len(b) == 0 && op.K%4 != 1 {
+			return skip("avoided:revappend-with-nil-tail")
+		}
+		return setq(fmt.Sprintf("(revappend %s %s)", A, B), cat(rev(a), b))
 	case "cdr", "rest":
 		if n == 0 {
-			return setq("(" + op.Op + " " + A + ")"), nil, ""
+			return setq("("+op.Op+" "+A+")", nil)
 		}
-		return setq("(" + op.Op + " " + A + ")"), a[1:], ""
+		return setq("("+op.Op+" "+A+")", a[1:])
 	case "nthcdr":
 		k := op.K % (n + 2)
 		if n < k {
-			return setq(fmt.Sprintf("(nthcdr %d %s)", k, A)), nil, ""
+			return setq(fmt.Sprintf("(nthcdr %d %s)", k, A), nil)
 		}
-		return setq(fmt.Sprintf("(nthcdr %d %s)", k, A)), a[k:], ""
+		return setq(fmt.Sprintf("(nthcdr %d %s)", k, A), a[k:])
 	case "last":
 		k := op.K % (n + 2)
 		if n < k {
-			return setq(fmt.Sprintf("(last %s %d)", A, k)), a, ""
+			return setq(fmt.Sprintf("(last %s %d)", A, k), a)
 		}
-		return setq(fmt.Sprintf("(last %s %d)", A, k)), a[n-k:], ""
+		return setq(fmt.Sprintf("(last %s %d)", A, k), a[n-k:])
 	case "last1":
 		if n == 0 {
-			return setq("(last " + A + ")"), nil, ""
+			return setq("(last "+A+")", nil)
 		}
-		return setq("(last " + A + ")"), a[n-1:], ""
-	case "butlast":
+		return setq("(last "+A+")", a[n-1:])
+	case "butlast", "nbutlast":
 		k := op.K % (n + 2)
-		if n <= k {
-			return setq(fmt.Sprintf("(butlast %s %d)", A, k)), nil, ""
+		p = setq(fmt.Sprintf("(%s %s %d)", op.Op, A, k), nil)
+		if k < n {
+			p.want = a[:n-k]
 		}
-		return setq(fmt.Sprintf("(butlast %s %d)", A, k)), a[:n-k], ""
+		return p
 	case "butlast1":
 		if n == 0 {
-			return setq("(butlast " + A + ")"), nil, ""
+			return setq("(butlast "+A+")", nil)
 		}
-		return setq("(butlast " + A + ")"), a[:n-1], ""
+		return setq("(butlast "+A+")", a[:n-1])
 	case "subseq":
 		if n == 0 {
-			return "", nil, "avoided:subseq-of-empty-list"
+			return skip("avoided:subseq-of-empty-list")
 		}
 		s := op.K % (n + 1)
 		e := s + op.J%(n-s+1)
-		return setq(fmt.Sprintf("(subseq %s %d %d)", A, s, e)), a[s:e], ""
+		return setq(fmt.Sprintf("(subseq %s %d %d)", A, s, e), a[s:e])
 	case "subseq-noend":
 		if n == 0 {
-			return "", nil, "avoided:subseq-of-empty-list"
+			return skip("avoided:subseq-of-empty-list")
 		}
 		s := op.K % (n + 1)
-		return setq(fmt.Sprintf("(subseq %s %d)", A, s)), a[s:], ""
-	case "copy-list":
-		return setq("(copy-list " + A + ")"), a, ""
+		return setq(fmt.Sprintf("(subseq %s %d)", A, s), a[s:])
+	case "copy-list", "copy-seq":
+		return setq("("+op.Op+" "+A+")", a)
 	case "reverse", "nreverse":
-		for i := n - 1; 0 <= i; i-- {
-			want = append(want, a[i])
-		}
-		return setq("(" + op.Op + " " + A + ")"), want, ""
+		return setq("("+op.Op+" "+A+")", rev(a))
 	case "remove", "delete":
 		it := item()
-		return setq(fmt.Sprintf("(%s %d %s)", op.Op, it, A)), without(func(_, e int) bool { return e == it }), ""
+		return setq(fmt.Sprintf("(%s %d %s)", op.Op, it, A), without(isItem(it)))
 	case "remove-count":
 		it := item()
 		done := false
-		return setq(fmt.Sprintf("(remove %d %s :count 1)", it, A)), without(func(_, e int) bool {
-			if e == it && !done {
+		return setq(fmt.Sprintf("(remove %d %s :count 1)", it, A), without(func(_ int, e el) bool {
+			if e.sub == nil && e.v == it && !done {
 				done = true
 				return true
 			}
 			return false
-		}), ""
+		}))
 	case "remove-if", "delete-if":
-		pred := []string{"evenp", "oddp"}[op.K%2]
-		return setq(fmt.Sprintf("(%s '%s %s)", op.Op, pred, A)), without(func(_, e int) bool { return (e%2 == 0) == (pred == "evenp") }), ""
+		if a.allInts() {
+			pred := []string{"evenp", "oddp"}[op.K%2]
+			return setq(fmt.Sprintf("(%s '%s %s)", op.Op, pred, A), without(func(_ int, e el) bool { return (e.v%2 == 0) == (pred == "evenp") }))
+		}
+		pred := []string{"consp", "numberp"}[op.K%2]
+		return setq(fmt.Sprintf("(%s '%s %s)", op.Op, pred, A), without(func(_ int, e el) bool { return (e.sub != nil) == (pred == "consp") }))
 	case "remove-dup":
-		return setq("(remove-duplicates " + A + ")"), without(laterDup), ""
+		return setq("(remove-duplicates "+A+")", without(laterDup))
 	case "delete-dup":
-		return setq("(delete-duplicates " + A + ")"), without(laterDup), ""
+		return setq("(delete-duplicates "+A+")", without(laterDup))
 	case "member":
 		it := item()
 		for i, e := range a {
-			if e == it {
-				return setq(fmt.Sprintf("(member %d %s)", it, A)), a[i:], ""
+			if e.sub == nil && e.v == it {
+				return setq(fmt.Sprintf("(member %d %s)", it, A), a[i:])
 			}
 		}
-		return setq(fmt.Sprintf("(member %d %s)", it, A)), nil, ""
+		return setq(fmt.Sprintf("(member %d %s)", it, A), nil)
 	case "mapcar":
 		if n == 0 {
-			return "", nil, "avoided:mapcar-on-empty-list"
+			return skip("avoided:mapcar-on-empty-list")
 		}
+		if !a.allInts() {
+			// elements are passed on: a new list that shares every element
+			return setq("(mapcar (lambda (x) x) "+A+")", a)
+		}
+		var want val
 		for _, e := range a {
-			want = append(want, e+1)
+			want = append(want, el{v: e.v + 1})
 		}
 		if op.K%2 == 0 {
-			return setq("(mapcar '1+ " + A + ")"), want, ""
+			return setq("(mapcar '1+ "+A+")", want)
 		}
-		return setq("(mapcar (lambda (x) (+ x 1)) " + A + ")"), want, ""
+		return setq("(mapcar (lambda (x) (+ x 1)) "+A+")", want)
 	case "mapcar2":
 		if n == 0 || len(b) == 0 {
-			return "", nil, "avoided:mapcar-on-empty-list"
+			return skip("avoided:mapcar-on-empty-list")
+		}
+		var want val
+		if !a.allInts() || !b.allInts() {
+			for i := 0; i < n && i < len(b); i++ {
+				want = append(want, a[i])
+			}
+			return setq(fmt.Sprintf("(mapcar (lambda (x y) x) %s %s)", A, B), want)
 		}
 		for i := 0; i < n && i < len(b); i++ {
-			want = append(want, a[i]+b[i])
+			want = append(want, el{v: a[i].v + b[i].v})
 		}
-		return setq(fmt.Sprintf("(mapcar '+ %s %s)", A, B)), want, ""
+		return setq(fmt.Sprintf("(mapcar '+ %s %s)", A, B), want)
 	case "push":
-		return fmt.Sprintf("(push %d %s)", fresh(0), T), cat([]int{fresh(0)}, a), ""
+		e := newEl()
+		return planned{src: fmt.Sprintf("(push %s %s)", e.form(), T), want: cat(val{e}, a)}
+	case "pushnew":
+		if op.K%3 == 0 && 0 < n && a[op.J%n].sub == nil {
+			// already an element: nothing changes
+			return planned{src: fmt.Sprintf("(pushnew %d %s)", a[op.J%n].v, T), want: a}
+		}
+		e := el{v: fresh()}
+		for _, o := range a {
+			if o.same(e) {
+				// a number made by mapcar can equal the next unused one
+				return planned{src: fmt.Sprintf("(pushnew %d %s)", e.v, T), want: a}
+			}
+		}
+		return planned{src: fmt.Sprintf("(pushnew %d %s)", e.v, T), want: cat(val{e}, a)}
 	case "pop":
 		if n == 0 {
-			return "(pop " + T + ")", nil, ""
+			return planned{src: "(pop " + T + ")"}
 		}
-		return "(pop " + T + ")", a[1:], ""
+		return planned{src: "(pop " + T + ")", want: a[1:]}
 	case "setf-car", "setf-first":
 		if n == 0 {
-			return "", nil, "empty place"
+			return skip("empty place")
 		}
 		fn := strings.TrimPrefix(op.Op, "setf-")
-		return fmt.Sprintf("(setf (%s %s) %d)", fn, T, fresh(0)), cat([]int{fresh(0)}, a[1:]), ""
+		e := newEl()
+		return planned{src: fmt.Sprintf("(setf (%s %s) %s)", fn, T, e.form()), want: cat(val{e}, a[1:]), dargs: []int{op.A}}
 	case "setf-nth", "setf-elt":
 		if n == 0 {
-			return "", nil, "empty place"
+			return skip("empty place")
 		}
 		k := op.K % n
-		want = cat(a)
-		want[k] = fresh(0)
+		e := newEl()
+		want := cat(a)
+		want[k] = e
 		if op.Op == "setf-nth" {
-			return fmt.Sprintf("(setf (nth %d %s) %d)", k, T, fresh(0)), want, ""
+			return planned{src: fmt.Sprintf("(setf (nth %d %s) %s)", k, T, e.form()), want: want, dargs: []int{op.A}}
 		}
-		return fmt.Sprintf("(setf (elt %s %d) %d)", T, k, fresh(0)), want, ""
+		return planned{src: fmt.Sprintf("(setf (elt %s %d) %s)", T, k, e.form()), want: want, dargs: []int{op.A}}
+	case "setf-caar", "setf-sub-nth", "rplaca-sub":
+		at := a.subs()
+		if len(at) == 0 {
+			return skip("no sub-list element")
+		}
+		for i := 0; i < nv; i++ {
+			if !w.v[i].ok {
+				return skip("a variable is not a list of fixnums and sub-lists")
+			}
+		}
+		k := at[op.K%len(at)]
+		old := a[k]
+		j := 0
+		if op.Op == "setf-sub-nth" {
+			j = op.J % len(old.sub)
+		}
+		nw := el{sub: append([]int{}, old.sub...)}
+		x := fresh()
+		nw.sub[j] = x
+		// by the language rules every occurrence of this sub-list is the same
+		// object (numbers are unique and nothing copies an element)
+		var all [nv]val
+		for i := 0; i < nv; i++ {
+			all[i] = cat(w.v[i].el)
+			for m := range all[i] {
+				if all[i][m].same(old) {
+					all[i][m] = nw
+				}
+			}
+		}
+		p.all = &all
+		p.want = all[op.T]
+		switch op.Op {
+		case "setf-caar":
+			p.src = fmt.Sprintf("(setf (car (nth %d %s)) %d)", k, T, x)
+		case "setf-sub-nth":
+			p.src = fmt.Sprintf("(setf (nth %d (nth %d %s)) %d)", j, k, T, x)
+		default:
+			p.src = fmt.Sprintf("(rplaca (nth %d %s) %d)", k, T, x)
+		}
+		return p
 	case "rplaca":
 		if n == 0 {
-			return "", nil, "empty list"
+			return skip("empty list")
 		}
-		return setq(fmt.Sprintf("(rplaca %s %d)", A, fresh(0))), cat([]int{fresh(0)}, a[1:]), ""
+		e := newEl()
+		p = setq(fmt.Sprintf("(rplaca %s %s)", A, e.form()), cat(val{e}, a[1:]))
+		p.dargs = []int{op.A}
+		return p
 	case "rplacd":
 		if n == 0 {
-			return "", nil, "empty list"
+			return skip("empty list")
 		}
-		if sameCells() {
-			return "", nil, "would be circular"
+		if classOf(op.A) != 0 && classOf(op.A) == classOf(op.B) {
+			return skip("would be circular")
 		}
-		return setq(fmt.Sprintf("(rplacd %s %s)", A, B)), cat(a[:1], b), ""
-	case "nconc":
-		if n != 0 && sameCells() {
-			return "", nil, "would be circular"
+		p = setq(fmt.Sprintf("(rplacd %s %s)", A, B), cat(a[:1], b))
+		p.dargs = []int{op.A}
+		p.from = []int{op.A, op.B}
+		return p
+	case "nconc", "nconc3", "nreconc":
+		args := []int{op.A, op.B}
+		if op.Op == "nconc3" {
+			args = append(args, op.C)
 		}
-		return setq(fmt.Sprintf("(nconc %s %s)", A, B)), cat(a, b), ""
-	case "add":
-		return setq(fmt.Sprintf("(add %s %d)", A, fresh(0))), cat(a, []int{fresh(0)}), ""
-	case "add2":
-		return setq(fmt.Sprintf("(add %s %d %d)", A, fresh(0), fresh(1))), cat(a, []int{fresh(0), fresh(1)}), ""
-	case "sort<", "sort>", "sort-default":
-		want = cat(a)
-		sort.Ints(want)
+		var ne []int // arguments holding a non-empty list
+		for _, i := range args {
+			if 0 < len(w.v[i].el) {
+				ne = append(ne, i)
+			}
+		}
+		if op.Op == "nreconc" && n == 0 {
+			return skip("avoided:revappend-of-empty-list")
+		}
+		if op.Op == "nreconc" && len(b) == 0 && op.K%4 != 1 {
+			return skip("avoided:revappend-with-nil-tail")
+		}
+		for i := range ne {
+			for j := i + 1; j < len(ne); j++ {
+				if ne[i] == ne[j] || (classOf(ne[i]) != 0 && classOf(ne[i]) == classOf(ne[j])) {
+					return skip("would be circular")
+				}
+			}
+		}
 		switch op.Op {
-		case "sort<":
-			return setq("(sort " + A + " '<)"), want, ""
-		case "sort>":
-			sort.Sort(sort.Reverse(sort.IntSlice(want)))
-			return setq("(sort " + A + " '>)"), want, ""
+		case "nconc":
+			p = setq(fmt.Sprintf("(nconc %s %s)", A, B), cat(a, b))
+		case "nconc3":
+			p = setq(fmt.Sprintf("(nconc %s %s %s)", A, B, C), cat(a, b, c))
+		default:
+			p = setq(fmt.Sprintf("(nreconc %s %s)", A, B), cat(rev(a), b))
 		}
-		return setq("(sort " + A + ")"), want, ""
+		p.from = ne
+		if 1 < len(ne) {
+			p.dargs = ne[:len(ne)-1]
+		} else if op.Op == "nreconc" && 0 < n {
+			p.dargs = []int{op.A}
+			p.from = []int{op.A}
+		}
+		return p
+	case "add":
+		e := newEl()
+		p = setq(fmt.Sprintf("(add %s %s)", A, e.form()), cat(a, val{e}))
+		p.dargs = []int{op.A}
+		return p
+	case "add2":
+		e1, e2 := el{v: fresh()}, newEl()
+		p = setq(fmt.Sprintf("(add %s %s %s)", A, e1.form(), e2.form()), cat(a, val{e1, e2}))
+		p.dargs = []int{op.A}
+		return p
+	case "addf":
+		e := newEl()
+		return planned{src: fmt.Sprintf("(addf %s %s)", T, e.form()), want: cat(a, val{e}), dargs: []int{op.A}}
+	case "sort<", "sort>", "sort-default", "sort-key", "stable-sort":
+		want := cat(a)
+		desc := op.Op == "sort>" || (op.Op == "sort-key" && a.allInts())
+		sort.SliceStable(want, func(i, j int) bool {
+			if desc {
+				return want[j].key() < want[i].key()
+			}
+			return want[i].key() < want[j].key()
+		})
+		for i := 0; i+1 < len(want); i++ {
+			if want[i].key() == want[i+1].key() && !want[i].same(want[i+1]) {
+				return skip("order is ambiguous")
+			}
+		}
+		switch {
+		case op.Op == "sort-key" && a.allInts():
+			p = setq("(sort "+A+" '< :key (lambda (x) (- x)))", want)
+		case op.Op == "sort-key" || !a.allInts():
+			if op.Op == "sort-default" {
+				return skip("default order of mixed elements is slip's own")
+			}
+			fn := "sort"
+			if op.Op == "stable-sort" {
+				fn = "stable-sort"
+			}
+			pred := "<"
+			if desc {
+				pred = ">"
+			}
+			p = setq("("+fn+" "+A+" '"+pred+" :key (lambda (x) (if (consp x) (car x) x)))", want)
+		case op.Op == "sort<":
+			p = setq("(sort "+A+" '<)", want)
+		case op.Op == "sort>":
+			p = setq("(sort "+A+" '>)", want)
+		case op.Op == "stable-sort":
+			p = setq("(stable-sort "+A+" '<)", want)
+		default:
+			p = setq("(sort "+A+")", want)
+		}
+		p.dargs = []int{op.A}
+		return p
 	}
 	panic("unknown operation " + op.Op)
 }
@@ -715,21 +1105,26 @@ func (w *world) plan(op Op, kd *kind) (src string, want []int, skip string) {
 func (w *world) stepOp(op Op, phase string) {
 	x := w.x
 	kd := kindOf[op.Op]
-	if kd == nil || op.T < 0 || nv <= op.T || op.A < 0 || nv <= op.A || op.B < 0 || nv <= op.B {
+	bad := func(i int) bool { return i < 0 || nv <= i }
+	if kd == nil || bad(op.T) || bad(op.A) || bad(op.B) || bad(op.C) {
 		panic(fmt.Sprintf("malformed operation %+v", op))
 	}
 	if kd.place {
 		op.A = op.T
 	}
 	w.step++
-	src, want, skip := w.plan(op, kd)
-	if skip != "" {
-		if strings.HasPrefix(skip, "avoided:") {
-			x.Cover(skip)
+	p := w.plan(op, kd)
+	if p.skip != "" {
+		if strings.HasPrefix(p.skip, "avoided:") {
+			x.Cover(p.skip)
 		} else {
-			x.Cover("skipped:" + skip)
+			x.Cover("skipped:" + p.skip)
 		}
 		return
+	}
+	src, want := p.src, p.want
+	if kd.dest && p.dargs == nil && (op.Op == "delete" || op.Op == "delete-if" || op.Op == "delete-dup" || op.Op == "nreverse" || op.Op == "nbutlast") {
+		p.dargs = []int{op.A}
 	}
 	w.prog = append(w.prog, src)
 	before := w.v
@@ -760,13 +1155,47 @@ func (w *world) stepOp(op Op, phase string) {
 	}
 	w.trace = append(w.trace, snap)
 	w.opAt = append(w.opAt, op.Op)
-
-	// the destructively processed class (0: nothing may change)
-	dclass := 0
-	if kd.dest && !(op.Op == "nconc" && len(before[op.A].el) == 0) {
-		dclass = w.find(before[op.A].class)
-	}
 	hist := func() string { return strings.Join(w.prog, " ") }
+
+	if p.all != nil {
+		// a write into a sub-list element: exact expectation for every variable
+		x.Cover("element-writes")
+		for i := 0; i < nv; i++ {
+			exp := render(p.all[i])
+			switch {
+			case w.v[i].shown == exp:
+				if exp != before[i].shown {
+					x.Cover("element-write-seen-through-variable")
+					if i != op.T {
+						x.Cover("element-write-seen-through-other-variable")
+					}
+				}
+			case i == op.T:
+				x.Fail("value op="+sigName(op.Op), "%s left %s as %s, the reference result is %s\nhistory: %s", src, names[i], w.v[i].shown, exp, hist())
+			case w.v[i].shown == before[i].shown:
+				// the younger of the two lists was made from the older one
+				via := before[i].via
+				if before[i].birth < before[op.T].birth {
+					via = before[op.T].via
+				}
+				x.Fail("element-copied via="+sigName(via), "%s is not visible through %s, which holds the same sub-list object by the language rules: %s stayed %s, expected %s (%s holds a result of %s, %s a result of %s)\nhistory: %s",
+					src, names[i], names[i], w.v[i].shown, exp, names[op.T], before[op.T].via, names[i], before[i].via, hist())
+			default:
+				x.Fail("element-frame op="+sigName(op.Op), "%s changed %s from %s to %s, expected %s\nhistory: %s", src, names[i], before[i].shown, w.v[i].shown, exp, hist())
+			}
+		}
+		return // the top-level sharing model is untouched
+	}
+
+	// the destructively processed classes (empty: nothing may change)
+	dclass := map[int]bool{}
+	if kd.dest {
+		for _, i := range p.dargs {
+			if c := w.find(before[i].class); c != 0 {
+				dclass[c] = true
+			}
+		}
+	}
 
 	// (1) value oracle on the target
 	if got := w.v[op.T].shown; got != render(want) {
@@ -778,6 +1207,8 @@ func (w *world) stepOp(op Op, phase string) {
 			detail = " tail=nil"
 		case op.Op == "list*":
 			detail = " tail=list"
+		case (op.Op == "revappend" || op.Op == "nreconc") && len(before[op.B].el) == 0:
+			detail = " tail=nil"
 		}
 		x.Fail("value op="+sigName(op.Op)+detail, "%s bound %s to %s, the reference result from the observed arguments is %s\nhistory: %s",
 			src, names[op.T], got, render(want), hist())
@@ -790,12 +1221,12 @@ func (w *world) stepOp(op Op, phase string) {
 			continue
 		}
 		changed := before[i].shown != w.v[i].shown
-		shares := dclass != 0 && w.find(before[i].class) == dclass
+		shares := dclass[w.find(before[i].class)]
 		switch {
-		case !kd.dest || dclass == 0:
+		case len(dclass) == 0:
 			x.Cover("frame:non-destructive-checked")
 			if changed {
-				x.Fail("frame op="+sigName(op.Op), "%s is not destructive but changed %s from %s to %s\nhistory: %s",
+				x.Fail("frame op="+sigName(op.Op), "%s is not destructive (or had nothing to destroy) but changed %s from %s to %s\nhistory: %s",
 					src, names[i], before[i].shown, w.v[i].shown, hist())
 			}
 		case !shares:
@@ -806,20 +1237,29 @@ func (w *world) stepOp(op Op, phase string) {
 			}
 			if changed {
 				// blame the allocation that should have made the two lists independent
-				via := before[op.A].via
-				if before[op.A].birth < before[i].birth {
-					via = before[i].via
+				d := p.dargs[0]
+				via, found := "", false
+				for _, di := range p.dargs {
+					if via, found = w.blame(before[di].class, before[i].class); found {
+						d = di
+						break
+					}
 				}
-				via = w.blame(before[op.A].class, before[i].class, via)
+				if !found {
+					via = before[d].via
+					if before[d].birth < before[i].birth {
+						via = before[i].via
+					}
+				}
 				x.Fail("alias via="+sigName(via), "%s changed %s from %s to %s although %s shares no cons cell with %s by the language rules (%s holds a result of %s, %s a result of %s)\nhistory: %s",
-					src, names[i], before[i].shown, w.v[i].shown, names[i], names[op.A],
-					names[op.A], before[op.A].via, names[i], before[i].via, hist())
+					src, names[i], before[i].shown, w.v[i].shown, names[i], names[d],
+					names[d], before[d].via, names[i], before[i].via, hist())
 			}
 		case kd.ext:
 			x.Cover("frame:extension-sharing-checked")
 			if changed && !(before[i].ok && w.v[i].ok && isPrefix(before[i].el, w.v[i].el)) {
-				x.Fail("overwrite op="+sigName(op.Op), "%s extends %s but overwrote elements reachable from %s: %s became %s\nhistory: %s",
-					src, names[op.A], names[i], before[i].shown, w.v[i].shown, hist())
+				x.Fail("overwrite op="+sigName(op.Op), "%s extends a list but overwrote elements reachable from %s: %s became %s\nhistory: %s",
+					src, names[i], before[i].shown, w.v[i].shown, hist())
 			}
 		default:
 			x.Cover("frame:destructive-sharing-exempt")
@@ -831,7 +1271,6 @@ func (w *world) stepOp(op Op, phase string) {
 
 	// (3) step the sharing model
 	res := &w.v[op.T]
-	srcA, srcB := before[op.A], before[op.B]
 	inherit := func(s vstate) {
 		res.class, res.via, res.birth = s.class, s.via, s.birth
 		if w.find(res.class) == 0 {
@@ -841,28 +1280,29 @@ func (w *world) stepOp(op Op, phase string) {
 			}
 		}
 	}
-	switch kd.share {
-	case shFresh:
+	switch {
+	case p.from != nil:
+		// the classes of these arguments merge; the youngest allocation names the class
+		m := vstate{}
+		for k, i := range p.from {
+			s := before[i]
+			if k == 0 || m.birth < s.birth {
+				m.via, m.birth = s.via, s.birth
+			}
+			m.class = w.union(m.class, s.class)
+		}
+		inherit(m)
+	case kd.share == shFresh:
 		res.class, res.via, res.birth = 0, op.Op, w.step
 		if 0 < len(want) {
 			res.class = w.newClass()
 		}
-	case shA:
-		inherit(srcA)
-	case shB:
-		inherit(srcB)
-	case shAB:
-		if op.Op == "nconc" && len(srcA.el) == 0 {
-			inherit(srcB)
-			break
-		}
-		// the younger allocation names the merged class
-		young := srcA
-		if srcA.birth < srcB.birth {
-			young = srcB
-		}
-		m := w.union(srcA.class, srcB.class)
-		inherit(vstate{class: m, via: young.via, birth: young.birth})
+	case kd.share == shA || kd.share == shAB:
+		inherit(before[op.A])
+	case kd.share == shB:
+		inherit(before[op.B])
+	case kd.share == shC:
+		inherit(before[op.C])
 	}
 	if kd.dest {
 		x.Cover("destructive-ops")
@@ -953,7 +1393,7 @@ func (w *world) reroute(route string) {
 }
 
 func exec(x *fw.Ctx, c Case) {
-	w := &world{x: x, scope: slip.NewScope(), mode: c.Mode, uf: []int{0}}
+	w := &world{x: x, scope: slip.NewScope(), mode: c.Mode, uf: []int{0}, next: 100}
 	for i := 0; i < nv; i++ {
 		w.scope.Let(slip.Symbol(names[i]), nil)
 		w.v[i] = vstate{shown: "nil", ok: true, via: "nil"}
@@ -982,11 +1422,13 @@ func exec(x *fw.Ctx, c Case) {
 	final := map[string]string{}
 	live := 0
 	classes := map[int]bool{}
+	nested := false
 	for i := 0; i < nv; i++ {
 		final[names[i]] = w.v[i].shown
 		if 0 < len(w.v[i].el) {
 			live++
 			classes[w.find(w.v[i].class)] = true
+			nested = nested || !w.v[i].el.allInts()
 		}
 	}
 	x.Observe(map[string]any{"program": w.prog, "final": final})
@@ -1000,17 +1442,22 @@ func exec(x *fw.Ctx, c Case) {
 	if len(classes) < live {
 		x.Cover("histories-with-sharing-variables")
 	}
+	if nested {
+		x.Cover("histories-with-sub-list-elements")
+	}
 	x.SetHash(fw.Hash64([]byte(strings.Join(w.prog, "\n") + "|" + c.Mode)))
 }
 
 func init() {
 	fw.Register(fw.Spec[Case]{
 		ID: "C06",
-		Rule: "history = pool construction (list / quoted literal / grown by add or push, optionally shortened again, or alias / cdr / nthcdr / last / member of an earlier variable) " +
-			"followed by <= 6 operations over 4 named lists; first block = every ordered pair of the 41 operations x 6 aliasing patterns x {exact-capacity, spare-capacity} pool x 2 selector values (exhaustive); " +
-			"thorough adds every ordered triple x 2 patterns x 2 pools; then seeded random histories (any variable as target and as either argument). " +
+		Rule: "history = pool construction (list / quoted literal, elements fixnums or one-level sub-lists; grown by add or push, optionally shortened again; result of remove/delete/remove-if/mapcar/append/revappend/remove-duplicates; " +
+			"or alias / cdr / nthcdr / last / member of an earlier variable) followed by <= 6 operations over 4 named lists; " +
+			"block 1 = every ordered pair of the 55 operations x 6 aliasing patterns x 8 (pool, selector) combinations over 5 pools {exact capacity, grown by add, sub-list elements, built by remove, built by append} (exhaustive, every seed); " +
+			"block 2 = ordered triples: quick the seed-independent third with (p+2q+3s) mod 3 = 0 (pattern and pool rotate), thorough every triple x 2 patterns x 2 pools; " +
+			"then seeded random histories (any variable as target and as any argument). " +
 			"distinct = distinct program text; non-trivial = at least one operation ran and at least two variables hold non-empty lists at the end. " +
-			"never generated: mapcar and subseq on an empty list (they signal a type-error, C14's concern); nothing else is avoided",
+			"never generated: mapcar and subseq on an empty list (they signal a type-error, C14's concern), circular structures, sub-lists as variable values; nothing else is avoided",
 		N:     nCases,
 		Gen:   gen,
 		Exec:  exec,
@@ -1019,7 +1466,7 @@ func init() {
 		Assumptions: []string{
 			"the value oracle is computed from the observed contents of the arguments, the frame rule from a sharing model (union-find over allocation classes) that over-approximates cons-cell sharing under ANSI CL rules",
 			"remove/remove-if/remove-duplicates results are treated as fresh (the property's 'independent of its arguments'); CL would also allow sharing",
-			"elements are fixnums only; dotted lists and nested lists are not generated",
+			"elements are fixnums or one-level sub-lists of fixnums; every number is unique when introduced, so two occurrences of a sub-list with the same contents are the same object by the language rules (no operation copies an element); dotted lists are not generated",
 			"variables are re-read through Scope.Get and rendered by the harness printer",
 			"route cases: the same program text is re-run as one let/lambda form and a Go builtin (c06-snap) renders the variables after every operation; both runs must agree",
 		},
